@@ -84,6 +84,14 @@ pub const STRINGS: &[&str] = &[
 ];
 
 pub fn string_atom(rng: &mut Rng) -> Value {
+    if rng.chance(1, 14) {
+        // long values: error messages quote them, results echo them, buffers have thresholds
+        let unit = *rng.pick(&["é", "中", "😀", "aé", "naïve ", "x", "日本語", "ab"]);
+        let n = *rng.pick(&[40usize, 70, 111, 130, 300]);
+        let mut s = if rng.chance(1, 2) { String::from("a") } else { String::new() };
+        s.push_str(&unit.repeat(n));
+        return Value::String(s);
+    }
     Value::String((*rng.pick(STRINGS)).to_string())
 }
 
